@@ -8,6 +8,7 @@ package main
 
 import (
 	"fmt"
+	"go/constant"
 	"strings"
 
 	"golang.org/x/tools/go/ssa"
@@ -294,7 +295,49 @@ func hasFact(facts []string, subs ...string) bool {
 // ---------------------------------------------------------------------------
 // NAMEDEGREE
 
+// nameDegreeByFolding decides Name.GetDegree on all 8 x 8 letter pairs by constant folding (works when the letters
+// come from an immutable table literal, e.g. slices.Index over a package-level []Name); ok=false when it does not fold.
+func (c *Ctx) nameDegreeByFolding(fn *ssa.Function) (problem string, ok bool) {
+	enum := c.enumConsts("note", "Name")
+	order := []string{"C", "D", "E", "F", "G", "A", "B"}
+	pos := map[string]int{}
+	for i, n := range order {
+		if _, has := enum[n]; !has {
+			return "", false
+		}
+		pos[n] = i
+	}
+	all := append([]string{"UnknownName"}, order...)
+	for _, xn := range all {
+		for _, yn := range all {
+			r, err := c.newFolder().foldCall(fn, []fval{{k: constant.MakeInt64(enum[xn]), t: fn.Params[0].Type()}, {k: constant.MakeInt64(enum[yn]), t: fn.Params[1].Type()}})
+			if err != nil || len(r.tuple) != 2 || r.tuple[0].k == nil || r.tuple[1].k == nil {
+				return "", false
+			}
+			got, _ := constant.Int64Val(r.tuple[0].k)
+			gok := constant.BoolVal(r.tuple[1].k)
+			wantOK := xn != "UnknownName" && yn != "UnknownName"
+			want := int64(0)
+			if wantOK {
+				want = int64((pos[yn]-pos[xn]+7)%7 + 1)
+			}
+			if gok != wantOK || (wantOK && got != want) {
+				return fmt.Sprintf("GetDegree(%s, %s) folds to (%d, %v), want (%d, %v)", xn, yn, got, gok, want, wantOK), true
+			}
+		}
+	}
+	return "", true
+}
+
 func ruleNameDegree(c *Ctx) {
+	if fn := c.fn("note", "Name.GetDegree"); fn != nil {
+		if problem, ok := c.nameDegreeByFolding(fn); ok {
+			c.site(2)
+			c.ok("note.nameRing", c.pos(fn.Pos()), "", "letter order decided by folding GetDegree on all letter pairs")
+			c.check(problem == "", fname(fn), c.pos(fn.Pos()), fname(fn), "letter distance = ((index(y) - index(x)) mod 7) + 1 on all 64 letter pairs (folded)", fname(fn)+": "+problem)
+			return
+		}
+	}
 	// ring order
 	c.site(1)
 	if _, _, names, pos, ok := c.initCall("note", "nameRing"); ok {
